@@ -501,12 +501,13 @@ func TestVerifC17Lib(t *testing.T) {
 	}
 	st, cov := vc17.Station(), vc17.Covert()
 	clients := vc17.Clients()
-	all := [][]string{vc17.Needles(st.TCP.IP), vc17.Needles(cov.TCP.IP)}
+	var all [][]string // client addresses first: they are what the property is about
 	var addrs []*vc17.Addr
 	for _, cl := range clients {
 		all = append(all, cl.Needles)
 		addrs = append(addrs, cl.Addr)
 	}
+	all = append(all, vc17.Needles(st.TCP.IP), vc17.Needles(cov.TCP.IP))
 	addrs = append(addrs, st, cov)
 	// corpus: the probe of DESIGN §7
 	probe := &vc17.Node{Kind: "O", Txt: "read", Net: "tcp", Src: st, Dst: clients[0].Addr, Inner: &vc17.Node{Kind: "E", N: 100}}
@@ -544,9 +545,12 @@ func c17LibReplay(t *testing.T, out *vlib.Out, path string, glob *c17Buf) {
 	s := string(b)
 	if strings.Contains(s, "\ngen|0|") || strings.Contains(s, "\nrelay|") || strings.Contains(s, "\nproxy|") {
 		st, cov := vc17.Station(), vc17.Covert()
-		all := [][]string{vc17.Needles(st.TCP.IP), vc17.Needles(cov.TCP.IP)}
+		var all [][]string
 		for _, cl := range vc17.Clients() {
 			all = append(all, cl.Needles)
+		}
+		all = append(all, vc17.Needles(st.TCP.IP), vc17.Needles(cov.TCP.IP))
+		for _, cl := range vc17.Clients() {
 			for _, op := range []string{"read", "write", "close", "set", "file"} {
 				for _, n := range vc17.Shapes(op, st, cl.Addr) {
 					c17GenCase(out, n, all)
